@@ -153,8 +153,13 @@ def gen_subquery(rng):
     icond = gen_atom(rng, ["w"], False, ctx) if rng.random() < 0.8 else None
     derived = [{"name": "s", "kind": "sub", "var": inner, "cond": icond}]
     cond = ["cmp", rng.choice(CMP), ["attr", ["var", "x"], rng.choice("ab")], ["attr", ["var", "s"], rng.choice("ab")]]
-    if rng.random() < 0.3:
+    r2 = rng.random()
+    if r2 < 0.3:
         cond = ["and", cond, gen_atom(rng, ["x"], False, ctx)]
+    elif r2 < 0.45:
+        # the comparison with the sub-query yields no row for an x when the sub-query has no answer
+        atom = ["cmp", rng.choice(CMP), ["attr", ["var", "x"], rng.choice("ab")], ["lit", rng.randint(0, 2)]]
+        cond = ["or", cond, atom] if rng.random() < 0.6 else ["or", atom, cond]
     sel = rng.choice([[["var", "x"]], [["var", "s"]], [["var", "x"], ["var", "s"]]])
     mode = "entity" if len(sel) == 1 and rng.random() < 0.5 else "set_of"
     return {"world": world, "vars": vars_, "derived": derived, "cond": cond, "select": sel, "mode": mode}
@@ -301,8 +306,14 @@ def gen_forall(rng, allow_empty=False, falsy_lit=False):
     cond = ["forall", "x", inner]
     if rng.random() < 0.25:
         cond = ["not", cond]
-    if rng.random() < 0.3:
+    r2 = rng.random()
+    if r2 < 0.3:
         cond = ["and", ["cmp", rng.choice(CMP), ["attr", ["var", "y"], "b"], ["lit", rng.randint(0, 2)]], cond]
+    elif r2 < 0.5:
+        # a disjunction whose one side is the quantified condition (it yields only the rows that hold) and whose other
+        # side mentions fewer variables
+        atom = ["cmp", rng.choice(CMP), ["attr", ["var", "y"], rng.choice("ab")], ["lit", rng.randint(0, 2)]]
+        cond = ["or", cond, atom] if rng.random() < 0.6 else ["or", atom, cond]
     mode = rng.choice(["entity", "set_of"])
     return {"world": world, "vars": vars_, "derived": [], "cond": cond, "select": [["var", "y"]], "mode": mode}
 
